@@ -17,7 +17,7 @@ ASSUMPTIONS = [
 
 THRX = {"C14", "C17", "C18"}
 SEQX_ALSO = {"C01", "C15"}
-THRX_ALSO = {"C03", "C04", "C05", "C07", "C08", "C09", "C10", "C11", "C12", "C13", "C15", "C16"}
+THRX_ALSO = {"C01", "C03", "C04", "C05", "C07", "C08", "C09", "C10", "C11", "C12", "C13", "C15", "C16"}
 MACX = {"C01", "C03", "C04", "C05", "C06", "C07", "C09", "C10", "C11", "C12", "C13", "C14", "C15", "C16", "C20"}
 
 
@@ -31,7 +31,7 @@ def jobs(pid, tier, engine):
     if pid == "C19":
         for i in range(ncpu):
             out.append(("cfgx", ["cfgx", "--property", pid, "--tier", tier, "--shard", f"{i}/{ncpu}"]))
-    if pid in ("C01", "C02", "C14"):
+    if pid in ("C01", "C02", "C03", "C14"):
         for i in range(ncpu):
             out.append(("shapex", ["shapex", "--property", pid, "--tier", tier, "--shard", f"{i}/{ncpu}"]))
     if pid in MACX:
